@@ -46,7 +46,7 @@ ASSUMPTIONS = ["layout variants agree to 1e-12 (different BLAS paths for "
 
 LAYOUTS = ["C", "F", "Tview", "strided", "readonly", "list", "real"]
 GROUPS = ["tempo", "dynamics", "correlations", "gradient", "control",
-          "chain", "process_tensor", "meanfield"]
+          "chain", "process_tensor", "meanfield", "bath_dynamics"]
 
 
 def required_cells(tier):
@@ -340,6 +340,35 @@ def run_group(group, inp, lay, snap, violations, scribble=False):
         res["pt_hand"] = np.array(oqupy.compute_dynamics(
             sysm, inp.rho.copy() if scribble else rho, process_tensor=pt,
             progress_type="silent").states)
+    elif group == "bath_dynamics":
+        # TwoTimeBathCorrelations with a caller-supplied system correlation
+        # matrix (as returned by compute_correlations: NaN outside the time
+        # ordering)
+        o = np.diag(np.diag(inp.o).real).astype(complex)
+        corr = gen.make_power_law(inp.sd)
+        bath = oqupy.Bath(o, corr)
+        params = oqupy.TempoParameters(dt=dt, epsrel=1e-8, dkmax=None)
+        pt = oqupy.pt_tempo_compute(bath, 0.0, lib.end_time(0.0, dt, n),
+                                    params, progress_type="silent")
+        sysm = oqupy.System(np.diag(np.diag(inp.h).real).astype(complex))
+        rho = np.diag(np.real(np.diag(inp.rho))).astype(complex)
+        _, cmat = oqupy.compute_correlations(
+            sysm, pt, o, o, slice(n), slice(n), initial_state=rho,
+            progress_type="silent")
+        cmat = np.array(cmat)
+        sc = own("system_correlations", cmat)
+        if isinstance(sc, list):
+            sc = np.array(sc)
+        bd = oqupy.TwoTimeBathCorrelations(sysm, bath, pt, initial_state=rho,
+                                           system_correlations=sc)
+        _, occ = bd.occupation(1.1, dw=0.01, change_only=True,
+                               progress_type="silent")
+        res["occupation"] = np.asarray(occ)
+        res["bath_corr"] = np.array([bd.correlation(
+            1.1, 0.1, 0.9, 0.2, dw=(0.01, 0.01), dagg=(1, 0),
+            progress_type="silent")])
+        res["nan_pattern"] = np.isnan(np.asarray(sc, dtype=complex)
+                                      ).astype(float)
     elif group == "meanfield":
         rho = own("rho0", inp.rho)
         hv = own("H", inp.h)
